@@ -132,6 +132,7 @@ func Round(pkgs []*packages.Package, fset *token.FileSet, readFile func(string) 
 	kn := Known()
 	var notes []string
 	helpers := map[*types.Func]*helper{}
+	pureCache = map[*helper]bool{}
 	srcOf := map[string][]byte{}
 	getSrc := func(path string) []byte {
 		if b, ok := srcOf[path]; ok {
@@ -237,6 +238,9 @@ func Round(pkgs []*packages.Package, fset *token.FileSet, readFile func(string) 
 				if !ok || fd.Body == nil {
 					continue
 				}
+				if pureCache == nil {
+					pureCache = map[*helper]bool{}
+				}
 				if obj, _ := info.Defs[fd.Name].(*types.Func); obj != nil && helpers[obj] != nil {
 					continue // expanded after it has been expanded into its callers
 				}
@@ -244,7 +248,7 @@ func Round(pkgs []*packages.Package, fset *token.FileSet, readFile func(string) 
 				if fe.src == nil || fe.dot {
 					continue
 				}
-				x := &expander{fset: fset, pk: pk, info: info, fe: fe, helpers: helpers, off: off, round: round, seq: &seq, notes: &notes, enclosing: fd}
+				x := &expander{fset: fset, pk: pk, info: info, fe: fe, helpers: helpers, off: off, round: round, seq: &seq, notes: &notes, enclosing: fd, pure: pureCache}
 				x.walkBlock(fd.Body)
 			}
 		}
@@ -364,17 +368,22 @@ func ineligible(fd *ast.FuncDecl, obj *types.Func, info *types.Info) string {
 	return why
 }
 
+var pureCache map[*helper]bool
+
 type expander struct {
-	fset      *token.FileSet
-	pk        *packages.Package
-	info      *types.Info
-	fe        *fileEdits
-	helpers   map[*types.Func]*helper
-	off       func(token.Pos) int
-	round     int
-	seq       *int
-	notes     *[]string
-	enclosing *ast.FuncDecl
+	fset        *token.FileSet
+	pk          *packages.Package
+	info        *types.Info
+	fe          *fileEdits
+	helpers     map[*types.Func]*helper
+	off         func(token.Pos) int
+	round       int
+	seq         *int
+	notes       *[]string
+	enclosing   *ast.FuncDecl
+	pure        map[*helper]bool
+	unstable    map[*types.Var]bool
+	unstableFor *ast.FuncDecl
 }
 
 func (x *expander) fresh(base string) string {
@@ -653,6 +662,19 @@ func (x *expander) stmt(s ast.Stmt) {
 		}
 		break
 	}
+	hoisted := false
+	if h == nil {
+		// a pure, total helper over stable arguments may be evaluated ahead of the statement wherever it occurs in it
+		for _, ci := range calls {
+			if ci.call == nil {
+				continue
+			}
+			if hh, re, _ := x.calleeOf(ci.call); hh != nil && re == nil && x.pureTotal(hh) && x.stableArgs(ci.call) {
+				call, h, hoisted = ci.call, hh, true
+				break
+			}
+		}
+	}
 	if h == nil {
 		return
 	}
@@ -744,7 +766,11 @@ func (x *expander) stmt(s ast.Stmt) {
 	}
 	h.done++
 	pos := x.fset.PositionFor(call.Pos(), true)
-	*x.notes = append(*x.notes, fmt.Sprintf("helper %s expanded at %s:%d", FuncKey(h.fn), shortPath(pos.Filename), pos.Line))
+	how := ""
+	if hoisted {
+		how = " (pure predicate, evaluated ahead of its statement)"
+	}
+	*x.notes = append(*x.notes, fmt.Sprintf("helper %s expanded%s at %s:%d", FuncKey(h.fn), how, shortPath(pos.Filename), pos.Line))
 }
 
 func shortPath(p string) string {
